@@ -1,0 +1,14 @@
+//go:build verif
+
+package confgen
+
+// VerifYield, when set by the verification harness, is called at the yield
+// points of the worker goroutines so that a chosen completion order can be
+// imposed (compiled only with the "verif" build tag).
+var VerifYield func(site string, key string)
+
+func verifYield(site string, key string) {
+	if f := VerifYield; f != nil {
+		f(site, key)
+	}
+}
